@@ -2254,6 +2254,54 @@ def r03i(P, R):
                    "literal typing rejects every literal for input kind %s" % k, "the verdict of literal typing for kind %s could not be evaluated" % k, loc=iv.loc())
 
 
+def lit_of(n):
+    while n.get("k") in ("DropTemps", "Use", "Cast", "AddrOf"):
+        n = n["e"]
+    return n.get("v") if n.get("k") == "Lit" else None
+
+
+def counter_of_operations(P, e, conds):
+    """Is one of the integer comparisons `conds` (in the inlined entry `e`) made on a *counter* — a local, or a field of one of the
+    checker's own structs, that is stepped with `+=`?  -> (comparison, kinds of definition whose arm/`if let` the steps sit in,
+    OperationDefinition fields read by other conditions around the steps, all steps are `+= 1`) | None"""
+    OD = A + "operation::OperationDefinition"
+    for c in conds:
+        for side in (c["l"], c["r"]):
+            x = side
+            while x.get("k") in ("DropTemps", "Use", "Cast", "AddrOf") or (x.get("k") == "Unary" and x.get("op") == "Deref"):
+                x = x["e"]
+            steps = []     # (fn, node index)
+            if x.get("k") == "Field" and norm(x.get("adt") or "").startswith(CK):
+                key = (norm(x["adt"]), x["field"])
+                for g in P.fns.values():
+                    if g.crate == "nitrogql_checker" and not g.derived and g.kind != "Closure":
+                        for j, (y, _) in enumerate(g.nodes()):
+                            l = y.get("l") if y.get("k") == "AssignOp" else None
+                            if l is not None and l.get("k") == "Field" and (norm(l.get("adt") or ""), l.get("field")) == key:
+                                steps.append((g, j))
+            elif x.get("k") == "Path" and "local" in x:
+                steps = [(e, j) for j, (y, _) in enumerate(e.nodes()) if y.get("k") == "AssignOp" and y["l"].get("k") == "Path" and y["l"].get("local") == x["local"]]
+            if not steps:
+                continue
+            pats, op_fields, unit = set(), set(), True
+            for g, j in steps:
+                gpv = MProv(g)
+                unit = unit and str(lit_of(g.nodes()[j][0]["r"])) == "1" and g.nodes()[j][0].get("op") in ("+", "+=", "Add", None)
+                for ctx in enclosing_contexts(g, j):
+                    pat = None
+                    if ctx[0] == "arm" and ctx[1] is not None and ctx[1].get("src") == "Normal":
+                        pat = ctx[2]["pat"]
+                    elif ctx[0] == "if-then" and ctx[1]["cond"].get("k") == "LetExpr":
+                        pat = ctx[1]["cond"]["pat"]
+                    if pat is not None:
+                        pats |= {norm(q.get("ctor_of") or q.get("def") or "").split("::")[-1] for q in subnodes(pat)
+                                 if (A + "operation::ExecutableDefinition::") in norm(q.get("ctor_of") or q.get("def") or "")}
+                for ge in guard_exprs(g, j):
+                    op_fields |= {a[2] for a in gpv.atoms(ge) if a[0] == "field" and a[1] == OD}
+            return c, pats, sorted(op_fields), unit
+    return None
+
+
 def _int_lit(n):
     while n.get("k") in ("DropTemps", "Use", "Cast", "AddrOf"):
         n = n["e"]
@@ -2294,6 +2342,11 @@ def r03j(P, R):
                     pol = cond["e"]["method"] == "is_some"
                 if pol is not None:
                     verdict = pol if c[0] == "if-then" else (not pol)
+            elif c[0] == "let-else" and c[1].get("init") is not None and has_field(pv.atoms(c[1]["init"]), OD, "name"):
+                # inside the `else` of `let Some(name) = op.name else { .. }`: the name did not match the pattern
+                reads_name = True
+                v, _ = arm_variants({"arms": [{"pat": c[1]["pat"]}]})
+                verdict = True if v == {"Some"} else (False if v == {"None"} else verdict)
         if not reads_name and not any(has_field(pv.atoms(ge), OD, "name") for ge in guard_exprs(e, i)):
             verdict = False
         decide(R, "R03-j", "lone-anonymous:branch", verdict, "reported for the operation without a name",
@@ -2311,6 +2364,17 @@ def r03j(P, R):
                 todo[:0] = [c["l"], c["r"]]
             elif c.get("k") == "Binary" and c.get("op") in ("!=", "==", ">", "<", ">=", "<=") and (_int_lit(c["l"]) or _int_lit(c["r"])):
                 conds.append(c)     # a comparison of some number with an integer literal
+        counted = counter_of_operations(P, e, conds)
+        if counted is not None:
+            cond, pats, op_fields, unit_steps = counted
+            verdict = False if op_fields else (True if (pats == {"OperationDefinition"} and unit_steps and cond.get("op") in ("!=", ">")
+                                                        and "1" in {str(lit_of(cond["l"])), str(lit_of(cond["r"]))}) else None)
+            decide(R, "R03-j", "lone-anonymous:count", verdict,
+                   "anonymous operation is reported unless the counter incremented once per OperationDefinition of the document is 1",
+                   "the guard of UnNamedOperationMustBeSingle compares a counter that is incremented under a condition reading OperationDefinition "
+                   "fields %s: it is not the number of all operations in the document, so an anonymous operation next to other operations can pass"
+                   % op_fields, "the way the operations are counted (a counter stepped on %s) is not a form this rule reads" % sorted(pats), loc=e0.loc())
+            continue
         conds = [c for c in conds if any(a[0] == "field" and a[1] == A + "operation::OperationDocument" and a[2] == "definitions" for a in pv.atoms(c))]
         if not conds:
             R.undecided("R03-j", "lone-anonymous:count", "no condition around the report counts document.definitions", loc=e0.loc())
